@@ -148,6 +148,29 @@ func shutdownBody(g lstore.Geometry, uploads [][]string, lateUpload bool) func()
 				}
 			}
 		}
+		// A second run that accepts nothing and shuts down gracefully (its final commit rewrites the state file
+		// from what was restored), then a third run that accepts uploads: still nothing acknowledged is damaged.
+		if len(acks) > 0 {
+			run2 := s.Restart(g)
+			cctx, ccancel := context.WithCancel(context.Background())
+			ccancel()
+			run2.Syncer.ProcessBlockPut(cctx)
+			run3 := run2.Restart(g)
+			for i, c := range []string{"www", "vvvv"} {
+				z := lstore.CASObj(fmt.Sprintf("W%d", i), inst(g), []byte(c))
+				if err := run3.PutOK(z.Digest, z.Content); err != nil {
+					break
+				}
+				for _, a := range acks {
+					if !run3.Held(a.Obj.Digest) {
+						continue
+					}
+					if ok, err := run3.Served(a.Obj.Digest, a.Obj.Content); err != nil || !ok {
+						failf("acknowledged-upload-overwritten-after-second-restart", "Put(%s) was acknowledged before the first shutdown; a second run only shut down gracefully; in the third run, after %d further upload(s), the store still resolves the object but does not serve its bytes (err=%v)", a.Obj.Name, i+1, err)
+					}
+				}
+			}
+		}
 		if v := s.CheckMonitors(); len(v) > 0 {
 			failf("monitor", "%s", v[0])
 		}
